@@ -164,6 +164,9 @@ def check(run):
 
         def go(cuts, extra_empty=None):
             chunks = split(stream, cuts)
+            if len(chunks) % 3 == 1:
+                # the file layer may hand over any bytes-like object
+                chunks = [bytearray(c) if j % 3 == 0 else (memoryview(c) if j % 3 == 1 else np.frombuffer(c, dtype=np.uint8)) for j, c in enumerate(chunks)]
             if extra_empty is not None:
                 for p in extra_empty:
                     chunks.insert(p % (len(chunks) + 1), b'')
